@@ -93,7 +93,6 @@ type Obs struct {
 	ended       int
 	dqHanded    map[*evState]int
 	spawning    map[int]*evState
-	backing     map[*pipeline.Event]*evState
 	content     map[string][]string // per (source,stream): field m of delivered regular events, in order
 	log         []string
 	p           *pipeline.Pipeline
@@ -167,24 +166,25 @@ func (m monitor) Got(e *pipeline.Event) {
 	o.byPtr[e] = st
 }
 
-func (m monitor) Back(e *pipeline.Event) {
+func (m monitor) Back(e *pipeline.Event) any {
 	o := m.o
 	st, ok := o.byPtr[e]
 	if !ok {
 		o.fail("double-return", nil, "event object returned to the pool but it is not out (returned twice or never handed out): offset %d", e.Offset)
-		return
+		return nil
 	}
 	delete(o.byPtr, e)
 	o.out--
 	st.backs++
 	o.logf("back %v commits=%d", st, st.commits)
-	o.backing[e] = st
+	return st
 }
 
-func (m monitor) BackDone(e *pipeline.Event) {
+// BackDone gets the state of the very return it belongs to: with a small pool the same event object can be handed out
+// and returned again before the first return has come back from the pool.
+func (m monitor) BackDone(tok any) {
 	o := m.o
-	st := o.backing[e]
-	delete(o.backing, e)
+	st, _ := tok.(*evState)
 	if st == nil {
 		return
 	}
@@ -459,7 +459,7 @@ func actionInfo(o *Obs, kind string) []*pipeline.ActionPluginStaticInfo {
 
 func Body(sc *Scn) {
 	o := &Obs{sc: sc, byPtr: map[*pipeline.Event]*evState{}, reading: map[int]*evState{}, ackedPtr: map[*pipeline.Event]bool{},
-		sentPtr: map[*pipeline.Event]bool{}, commitSeq: map[string][]int64{}, dqHanded: map[*evState]int{}, spawning: map[int]*evState{}, backing: map[*pipeline.Event]*evState{}, content: map[string][]string{}}
+		sentPtr: map[*pipeline.Event]bool{}, commitSeq: map[string][]int64{}, dqHanded: map[*evState]int{}, spawning: map[int]*evState{}, content: map[string][]string{}}
 	O = o
 	for s, list := range sc.Sources {
 		var l []*evState
